@@ -41,7 +41,6 @@ import (
 	"github.com/pkg/errors"
 	"go.opentelemetry.io/otel"
 	"go.opentelemetry.io/otel/attribute"
-	"golang.org/x/sync/semaphore"
 )
 
 // Propose proposes a block.
@@ -359,8 +358,9 @@ func (s *Service) unblindProposal(ctx context.Context,
 ) error {
 	// We do not create a cancelable context, as if we do cancel the later-returning providers they will mark themselves
 	// as failed even if they are just running a little slow, which isn't a useful thing to do.  Instead, we use a
-	// semaphore to track if a signed block has been returned by any provider.
-	sem := semaphore.NewWeighted(1)
+	// flag to track if a signed block has been returned by any provider.  The flag is set only by a provider
+	// that has a block to hand over, so a provider that has a block never leaves without handing it over.
+	var delivered atomic.Bool
 
 	// Room for every provider's block, so that no provider is left blocked once we have returned.
 	respCh := make(chan *api.VersionedSignedProposal, len(providers))
@@ -396,13 +396,12 @@ func (s *Service) unblindProposal(ctx context.Context,
 					},
 				})
 
-				if !sem.TryAcquire(1) {
-					// We failed to acquire the semaphore, which means another relay has responded already.
+				if (err != nil || signedProposalResponse == nil) && delivered.Load() {
+					// We have no block, and another relay has responded already.
 					// As such, we can leave without going any further.
 					log.Trace().Msg("Another relay has already responded")
 					return
 				}
-				sem.Release(1)
 
 				if err != nil {
 					log.Debug().Err(err).Int("retries", retries).Msg("Failed to unblind block")
@@ -421,9 +420,8 @@ func (s *Service) unblindProposal(ctx context.Context,
 			}
 
 			log.Trace().Msg("Unblinded block")
-			// Acquire the semaphore to confirm that a block has been received.
-			// Use TryAcquire in case two providers return the block at the same time.
-			sem.TryAcquire(1)
+			// Set the flag to confirm that a block has been received.
+			delivered.Store(true)
 			supplied = true
 			ch <- signedProposalResponse.Data
 		}(ctx, provider, respCh)
